@@ -6,6 +6,13 @@ Streams (all driven through harness/impl/c08_impl.py against a real SdcProvider 
   decimal    arbitrary millisecond durations and clock steps                 -> oracle only (tolerant at ties)
   e2e        real SdcConsumers (ConsumerSubscriptionManager, both identification styles): deliveries after
              unsubscribe / expiry / renew, SubscriptionEnd handling on shutdown -> oracle only
+  fanout     reports whose fan-out is interleaved with other threads' operations: from INSIDE the delivery to one
+             receiver (the manager is blocked in post_message_to) a second thread performs Unsubscribe / Renew /
+             GetStatus / Subscribe requests, clock steps across an expiry, housekeeping passes and whole reports of
+             another sender with failing deliveries; every later hand-off of the fan-out is judged against the
+             subscription's state AT ITS SEND TIME                          -> fine-grained model (Eventing/FanOut.v,
+             vm_compute) + oracle.  Async managers hold the table lock during the fan-out: operations that need it are
+             shown to wait (lock probe) and are performed afterwards, only the clock moves meanwhile.
 """
 import json
 from concurrent.futures import ThreadPoolExecutor
@@ -16,6 +23,8 @@ from lib import Raw, coqlit
 HEADER = ('From Coq Require Import List ZArith Bool String.\nImport ListNotations.\n'
           'From SDC Require Import Eventing.Gen_Consts Eventing.Model.\nOpen Scope Z_scope.')
 DEPS = ['Eventing/Gen_Consts.vo', 'Eventing/Model.vo']
+HEADER_X = HEADER.replace('Eventing.Model.', 'Eventing.Model Eventing.FanOut.')
+DEPS_X = DEPS + ['Eventing/FanOut.vo']
 
 KINDS = {'metric': ['StateEventService/EpisodicMetricReport'], 'alert': ['StateEventService/EpisodicAlertReport'],
          'component': ['StateEventService/EpisodicComponentReport'],
@@ -168,11 +177,149 @@ def gen_case(rng, actions, max_ops, stream):
     return c
 
 
+def gen_fan_case(rng, actions, max_ops):
+    """>= 2 subscribers interested in the same reports; reports whose fan-out is interleaved (from inside the
+    delivery of the n-th hand-off) with Unsubscribe / Renew / GetStatus / Subscribe, clock steps aimed at an expiry,
+    housekeeping and reports of another sender with failing deliveries"""
+    unit = 8
+    kind_idx = {k: [act_index(actions, n) for n in v] for k, v in KINDS.items() if k != 'descr'}
+    hot = rng.sample(sorted(kind_idx), rng.choice([1, 1, 2]))
+    hot_acts = [kind_idx[k][0] for k in hot]
+    other_acts = sorted({v[0] for v in kind_idx.values()} - set(hot_acts))
+    maxd = rng.choice([120, 60, 33, None])
+    eff_maxd = maxd if maxd is not None else 7200 * unit
+    c = {'stream': 'fanout', 'unit': 'tick', 'style': rng.choice(['path', 'ref']), 'async': rng.random() < 0.3,
+         'maxd': maxd, 'max_err': rng.choice([None, None, 2, 3]), 'nsinks': rng.randint(2, 3), 'ops': []}
+    ops = c['ops']
+    now = 0
+    subs = []
+    max_err = c['max_err'] or 1
+
+    def outs(pfail=0.2):
+        return [rng.choices(['ok', ['http', rng.choice([404, 500, 503])], 'refuse', 'timeout'],
+                            [1 - pfail, pfail / 3, pfail / 3, pfail / 3])[0] for _ in range(c['nsinks'])]
+
+    def mk_sub(must=None):
+        f = [['a', a] for a in hot_acts if rng.random() < 0.85 or a == must]
+        f += [['a', rng.choice(other_acts)] for _ in range(rng.choice([0, 0, 1]))]
+        if not f:
+            f = [['a', hot_acts[0]]]
+        rng.shuffle(f)
+        e = rng.choice([None, rng.randint(4, 30), rng.randint(10, 60), rng.randint(40, 200)])
+        q = {'schema_ok': True, 'dialect_ok': True, 'filter': f, 'expires': e, 'notify': rng.randrange(c['nsinks']),
+             'end': rng.choice([None, None] + list(range(c['nsinks']))), 'cons_ref': rng.random() < 0.4}
+        subs.append({'t0': now, 'dur': eff_maxd if e is None else min(e, eff_maxd), 'unsub': False,
+                     'acts': {t[1] for t in f}, 'sink': q['notify'], 'fails': 0})
+        return ['sub', q]
+
+    def live(a=None):
+        return [i for i, sb in enumerate(subs) if not sb['unsub'] and now - sb['t0'] < sb['dur']
+                and sb['fails'] < max_err and (a is None or a in sb['acts'])]
+
+    def sent(a, o):
+        """rough bookkeeping of delivery failures (the generator only aims, the oracle judges)"""
+        for i in live(a):
+            subs[i]['fails'] = 0 if o[subs[i]['sink']] == 'ok' else subs[i]['fails'] + 1
+
+    def target(a):
+        cand = live(a) if rng.random() < 0.85 else list(range(len(subs)))
+        if not cand or rng.random() < 0.04:
+            return ['id', len(subs) + rng.randint(0, 1)] if rng.random() < 0.5 else ['bogus', rng.choice(BOGUS)]
+        return ['id', rng.choice(cand)]
+
+    def inner(a):
+        """operations of other threads during one delivery; the generator's clock / table follow them"""
+        nonlocal now
+        out = []
+        for _ in range(rng.choice([1, 1, 2, 3])):
+            r = rng.random()
+            if r < 0.34:
+                i = target(a)
+                out.append(['unsub', i, rng.random() < 0.7])
+                if i[0] == 'id' and i[1] < len(subs):
+                    subs[i[1]]['unsub'] = True
+            elif r < 0.54:
+                cand = live(a)
+                if cand and rng.random() < 0.8:
+                    sb = subs[rng.choice(cand)]
+                    dt = max(0, sb['dur'] - (now - sb['t0']) + rng.choice([-1, 0, 0, 1]))      # across its expiry
+                else:
+                    dt = rng.randint(0, 12)
+                out.append(['adv', dt])
+                now += dt
+            elif r < 0.66:
+                i = target(a)
+                e = rng.choice([None, 0, rng.randint(1, 40), rng.randint(1, 40)])
+                out.append(['renew', i, e, rng.random() < 0.7])
+                if i[0] == 'id' and i[1] < len(subs) and not subs[i[1]]['unsub']:
+                    subs[i[1]].update(t0=now, dur=eff_maxd if e is None else min(e, eff_maxd))
+            elif r < 0.71:
+                out.append(['status', target(a), rng.random() < 0.7])
+            elif r < 0.81:
+                out.append(mk_sub())
+            elif r < 0.88:
+                out.append(['hk'])
+            else:       # a report of another sender; its deliveries fail more often: ends subscriptions
+                o = outs(0.45)
+                b = rng.choice(hot_acts)
+                out.append(['report', ['direct', ['a', b]], o])
+                sent(b, o)
+        return out
+
+    for _ in range(rng.choice([2, 2, 3, 3, 4])):
+        ops.append(mk_sub())
+    nops = rng.randint(6, max_ops)
+    while len(ops) < nops:
+        r = rng.random()
+        kind = rng.choice(hot)
+        a = kind_idx[kind][0]
+        if r < 0.55:
+            while len(live(a)) < rng.choice([2, 3, 3, 4]):         # several receivers for this report
+                ops.append(mk_sub(must=a))
+            m = len(live(a))
+            where = sorted(set(rng.choices(range(m), [4] + [2] * (m - 1), k=rng.choice([1, 1, 2]))))
+            inject = {}
+            o = outs(0.07)
+            sent(a, o)
+            for n in where:
+                inject[str(n)] = inner(a)
+            what = ['kind', kind] if rng.random() < 0.8 else ['direct', ['a', a]]
+            ops.append(['freport', what, o, inject])
+        elif r < 0.72:
+            o = outs(0.07)
+            sent(a, o)
+            ops.append(['report', ['kind', kind], o])      # later reports: new subscriptions must get them
+        elif r < 0.8:
+            dt = rng.randint(0, 10)
+            ops.append(['adv', dt])
+            now += dt
+        elif r < 0.86:
+            ops.append(mk_sub())
+        elif r < 0.91:
+            i = target(a)
+            ops.append(['unsub', i, True])
+            if i[0] == 'id' and i[1] < len(subs):
+                subs[i[1]]['unsub'] = True
+        elif r < 0.95:
+            ops.append(['hk'])
+        else:
+            ops.append(['status', target(a), True])
+    if rng.random() < 0.8:
+        ops.append(['stop', rng.random() < 0.85, outs(0.1)])
+    return c
+
+
 def expand_ops(case, actions):
     """model-level ops, one per trace entry: (op, action string|None)"""
     out = []
     for op in case['ops']:
-        if op[0] == 'report':
+        if op[0] == 'freport':
+            if op[1][0] == 'kind':
+                out.append((op, actions[act_index(actions, KINDS[op[1][1]][0])]))
+            else:
+                tok = op[1][1]
+                out.append((op, actions[tok[1]] if tok[0] == 'a' else tok[1]))
+        elif op[0] == 'report':
             if op[1][0] == 'kind':
                 for name in KINDS[op[1][1]]:
                     out.append((op, actions[act_index(actions, name)]))
@@ -207,9 +354,87 @@ def lit_outs(outs):
     return '[' + '; '.join('OHttp' if isinstance(o, list) else OUT_LIT[o] for o in outs) + ']'
 
 
+def lit_op(op, a, actions):
+    """one plain operation of the model (Eventing/Model.v op)"""
+    return lit_ops_of({'ops': [op]}, actions, [(op, a)])[0]
+
+
 def lit_case(case, actions):
+    return lit_cfg(case, '[' + ';\n '.join(lit_ops_of(case, actions, expand_ops(case, actions))) + ']')
+
+
+def tok_action(tok, actions):
+    return actions[tok[1]] if tok[0] == 'a' else tok[1]
+
+
+def lit_inner(op, actions):
+    if op[0] == 'report':
+        return lit_op(op, tok_action(op[1][1], actions), actions)
+    return lit_op(op, None, actions)
+
+
+def lit_xcase(case, trace, actions):
+    """fine-grained history: plain ops + Fan; the receiver order of a fan-out (iteration order of a Python set) is
+    taken from the implementation trace - it is the scheduler's choice, the model is run with the same one"""
+    xs = []
+    for (op, a), e in zip(expand_ops(case, actions), trace):
+        if op[0] == 'freport':
+            fan = e.get('fan') or {}
+            order = [k for k in (fan.get('order') or []) if isinstance(k, int)]
+            inject = op[3]
+            n = max([int(x) for x in inject] + [-1]) + 1
+            inter = [lit_list([lit_inner(o, actions) for o in inject.get(str(i), [])], 'op') for i in range(n)]
+            xs.append(f'Fan {lit_str(actions, a)} {lit_outs(op[2])} {lit_list([str(k) for k in order], "Z")} '
+                      + lit_list(inter, 'list op'))
+        else:
+            xs.append('Plain (' + lit_op(op, a, actions) + ')')
+    return lit_cfg(case, '[' + ';\n '.join(xs) + ']')
+
+
+def lit_rm(e, actions):
+    ms = []
+    for h in e['handed']:
+        m = h['m']
+        if m[0] == 'notify':
+            ms.append(f'Notify {z(m[1])} {lit_tok(actions, m[2])} {z(m[3])}')
+        else:
+            ms.append(f'End {z(m[1])} {z(m[2])} {coqlit(bool(m[3]))}')
+    return f'({lit_resp(e["resp"])}, {lit_list(ms, "msg")})'
+
+
+def lit_list(items, ty):
+    """a Coq list literal; the empty one with its type (nothing else may determine it in a cases file)"""
+    return '[' + '; '.join(items) + ']' if items else f'(@nil ({ty}))'
+
+
+def lit_xtrace(tr, actions):
+    out = []
+    for e in tr:
+        fan = e.get('fan')
+        if fan is None:
+            out.append(f'({lit_entry(e, actions)}, (@nil hand, @nil (resp * list msg)))')
+            continue
+        hands = []
+        for ev in fan['events']:
+            m = ev['m']
+            hands.append(f'(Notify {z(m[1])} {lit_tok(actions, m[2])} {z(m[3])}, '
+                         + lit_list([lit_rm(x, actions) for x in ev["inner"]], 'resp * list msg') + ')')
+        e0 = dict(e, handed=[])
+        out.append(f'({lit_entry(e0, actions)}, ({lit_list(hands, "hand")}, '
+                   + lit_list([lit_rm(x, actions) for x in fan["waited"]], 'resp * list msg') + '))')
+    return '[' + ';\n '.join(out) + ']'
+
+
+def lit_cfg(case, ops_lit):
+    maxd = 'DEFAULT_MAX_SUBSCR_DURATION_TICKS' if case['maxd'] is None else f'({case["maxd"]})'
+    maxerr = 'MAX_NOTIFY_ERRORS' if case['max_err'] is None else f'({case["max_err"]})'
+    return (f'(mkCfg {maxd} {maxerr} HOUSEKEEPING_GRACE_TICKS {coqlit(not case["async"])}, {case["nsinks"]}%nat, '
+            + ops_lit + ')')
+
+
+def lit_ops_of(case, actions, eops):
     ops = []
-    for op, a in expand_ops(case, actions):
+    for op, a in eops:
         k = op[0]
         if k == 'sub':
             q = op[1]
@@ -230,10 +455,9 @@ def lit_case(case, actions):
             ops.append('Housekeeping')
         elif k == 'stop':
             ops.append(f'Stop {coqlit(op[1])} {lit_outs(op[2])}')
-    maxd = 'DEFAULT_MAX_SUBSCR_DURATION_TICKS' if case['maxd'] is None else f'({case["maxd"]})'
-    maxerr = 'MAX_NOTIFY_ERRORS' if case['max_err'] is None else f'({case["max_err"]})'
-    return (f'(mkCfg {maxd} {maxerr} HOUSEKEEPING_GRACE_TICKS {coqlit(not case["async"])}, {case["nsinks"]}%nat, ['
-            + ';\n '.join(ops) + '])')
+        else:
+            raise ValueError(k)
+    return ops
 
 
 def z(v):
@@ -332,12 +556,15 @@ def oracle(case, trace, actions, consts):
             return 'failed'
         return 'expired'
 
-    prev = None
-    for n, ((op, a), e) in enumerate(zip(eops, trace)):
+    def judge(n, op, a, e, prev):
+        """one operation and what the implementation did; updates the oracle's bookkeeping"""
+        nonlocal now
         r = e['resp']
         kind = op[0]
         if r[0] == 'crash':
             return n, 'crash', kind, f'{kind}: {r[1]}'
+        if kind == 'freport':
+            return judge_fan(n, op, a, e)
         if kind not in ('report', 'stop') and e['handed']:
             return n, 'delivery', f'sent-by-{kind}', f'{kind} op handed messages to subscribers: {e["handed"]}'
         if kind == 'sub':
@@ -468,6 +695,103 @@ def oracle(case, trace, actions, consts):
                 s['ended'] = True
             if e['table']:
                 return n, 'end', 'table-not-cleared', 'subscriptions left in the table after stop_all'
+        return None
+
+    def judge_fan(n, op, a, e):
+        """A fan-out interleaved with other threads' operations.  Every hand-off is judged at ITS send time: the
+        bookkeeping at that moment contains all operations that were answered before it.  A receiver that was not
+        handed the report must have been not alive (or not matching) when its turn came (receiver order known:
+        exactly then; otherwise: at some moment of the fan-out).  A subscription created during the fan-out may
+        or may not get this report."""
+        fan = e.get('fan')
+        if not isinstance(fan, dict):
+            return n, 'crash', 'freport', 'harness: no fan-out record'
+        short = a.rsplit('/', 1)[-1]
+        inject = op[3]
+        n_list = len(subs)                      # subscriptions accepted before the receiver list was built
+
+        def wants(k):
+            return alive(subs[k]) and spec_match(subs[k]['filter'], a, actions)
+
+        not_wanted_once = {k for k in range(n_list) if not wants(k)}
+        order = fan.get('order')
+        evk = [ev['m'][1] for ev in fan['events']]
+        exact = (isinstance(order, list) and all(isinstance(k, int) and 0 <= k < n_list for k in order)
+                 and len(set(order)) == len(order))
+        if exact:                               # the hand-offs to old subscriptions must follow the receiver order
+            it = iter(order)
+            exact = all(any(k == x for x in it) for k in evk if isinstance(k, int) and k < n_list)
+        pos = 0
+        seen = []
+
+        def skipped_until(k_stop):
+            """receivers passed over before the hand-off to k_stop (None: until the end of the list)"""
+            nonlocal pos
+            while pos < len(order) and order[pos] != k_stop:
+                j = order[pos]
+                pos += 1
+                if j not in seen and wants(j):
+                    return (n, 'delivery', 'missing:alive',
+                            f'fan-out of {short}: live matching subscription {j} was passed over (receiver order {order}, '
+                            f'handed so far {seen})')
+            pos += 1
+            return None
+
+        for i, ev in enumerate(fan['events']):
+            m = ev['m']
+            k = m[1]
+            if m[0] != 'notify' or k is None or not (0 <= k < len(subs)):
+                return n, 'delivery', 'stray-message', f'fan-out handed {m} (no accepted subscription)'
+            s = subs[k]
+            if tok_action(m[2], actions) != a or m[3] != s['notify'] or ev.get('is_e'):
+                return n, 'delivery', 'wrong-address', f'notification {m} not addressed to NotifyTo of subscription {k}'
+            if k in seen:
+                return n, 'delivery', 'duplicate', f'a report was handed twice to one subscription: {seen + [k]}'
+            if exact and k < n_list:
+                bad = skipped_until(k)
+                if bad:
+                    return bad
+            if not wants(k):
+                why = why_dead(s) if alive(s) is False else 'filter'
+                return (n, 'delivery', f'extra:{why}',
+                        f'fan-out of {short}, hand-off {i}: handed to subscription {k} which is {why} at that moment '
+                        f'(operations performed during earlier deliveries of the same report: '
+                        f'{[x["op"][:2] for e0 in fan["events"][:i] for x in e0["inner"]]})')
+            seen.append(k)
+            planned = inject.get(str(i), [])
+            done = [x['op'] for x in ev['inner']]
+            if len(done) + ev['waiting'] != len(planned) or any(d not in planned for d in done):
+                return n, 'crash', 'freport', f'harness: planned {planned}, performed {done}, waiting {ev["waiting"]}'
+            for x in ev['inner']:               # operations of other threads while this delivery is in progress
+                iop = x['op']
+                ia = tok_action(iop[1][1], actions) if iop[0] == 'report' else None
+                bad = judge(n, iop, ia, x, None)
+                if bad:
+                    return bad[0], bad[1], bad[2], f'during hand-off {i} of a fan-out: {bad[3]}'
+                not_wanted_once.update(j for j in range(n_list) if not wants(j))
+            s['fails'] = 0 if ev['ok'] else s['fails'] + 1        # the exchange ends
+            not_wanted_once.update(j for j in range(n_list) if not wants(j))
+        if exact:
+            bad = skipped_until(None)
+            if bad:
+                return bad
+        for j in range(n_list):
+            if j not in seen and j not in not_wanted_once:
+                return (n, 'delivery', 'missing:alive',
+                        f'fan-out of {short}: subscription {j} was live and matching during the whole fan-out, not handed')
+        for x in fan['waited']:                 # operations that had to wait for the table lock
+            iop = x['op']
+            ia = tok_action(iop[1][1], actions) if iop[0] == 'report' else None
+            bad = judge(n, iop, ia, x, None)
+            if bad:
+                return bad[0], bad[1], bad[2], f'after a fan-out (waited for the table lock): {bad[3]}'
+        return None
+
+    prev = None
+    for n, ((op, a), e) in enumerate(zip(eops, trace)):
+        bad = judge(n, op, a, e, prev)
+        if bad:
+            return bad
         prev = e
     return None
 
@@ -632,6 +956,28 @@ def histogram(cases, traces, actions, hist):
                 hist['report_to_nobody'] += 1
             if op[0] == 'hk':
                 hist['hk_passes'] += 1
+            fan = e.get('fan')
+            if fan:
+                order = fan['order'] or []
+                evk = [ev['m'][1] for ev in fan['events']]
+                hist['fan_receivers'] += len(order)
+                hist['fan_handoffs'] += len(evk)
+                first = next((i for i, ev in enumerate(fan['events']) if ev['inner']), None)
+                for ev in fan['events']:
+                    for x in ev['inner']:
+                        hist['fan_inflight_' + x['op'][0]] += 1
+                        hist['fan_inflight_faulted'] += x['resp'][0] == 'fault'
+                        hist['fan_nested_handoffs'] += len(x['handed'])
+                for x in fan['waited']:
+                    hist['fan_waited_for_lock_' + x['op'][0]] += 1
+                if first is not None:
+                    hist['fan_interleaved'] += 1
+                    hist['fan_handoffs_after_interleaving'] += len(evk) - first - 1
+                    if evk[first] in order:
+                        later = order[order.index(evk[first]) + 1:]
+                        hist['fan_receivers_after_interleaving'] += len(later)
+                        hist['fan_receivers_dropped_after_interleaving'] += len([k for k in later if k not in evk])
+                    hist['fan_handoffs_to_new_subscription'] += len([k for k in evk if k not in order])
         for e0, e1 in zip(tr, tr[1:]):
             if len(e1['table']) < len(e0['table']):
                 hist['entries_removed'] += len(e0['table']) - len(e1['table'])
@@ -647,17 +993,33 @@ def run(ctx):
         # of the last generated file
         consts = consts_from_generated()
     actions = consts['actions']
+    hist = Counter()
+    plan = [('life', ctx.n(220, 2000), ctx.n(16, 40)), ('malformed', ctx.n(90, 800), ctx.n(16, 40)),
+            ('decimal', ctx.n(50, 500), ctx.n(16, 40)), ('fanout', ctx.n(70, 1200), ctx.n(12, 24))]
+    import time as _time
+    # all inputs first (ONE rng, fixed order), then the implementation runs in the background while Coq checks the
+    # theorems; the streams are judged in order
+    inputs = {}
+    for stream, ncases, max_ops in plan:
+        if stream == 'fanout':
+            continue
+        inputs[stream] = [gen_case(ctx.rng, actions, max_ops, stream) for _ in range(ncases)]
+    e2e = [gen_e2e(ctx.rng, ctx.n(10, 20)) for _ in range(ctx.n(20, 200))]
+    inputs['fanout'] = [gen_fan_case(ctx.rng, actions, plan[3][2]) for _ in range(plan[3][1])]
+    inputs['e2e'] = e2e
+    bg = ThreadPoolExecutor(max_workers=2)
+    t_start = _time.time()
+
+    def impl_job(name):
+        r = run_impl(ctx, inputs[name], workers=ctx.n(5, 8))
+        return r, _time.time() - t_start
+    futures = {name: bg.submit(impl_job, name) for name in ['life', 'fanout', 'malformed', 'decimal', 'e2e']}
     proof_ok = ctx.prove()
     if not proof_ok:
         ctx.broken('theorem', 'Props/C08.v', ctx.proof_error)
-    hist = Counter()
-    plan = [('life', ctx.n(220, 2000), ctx.n(16, 40)), ('malformed', ctx.n(90, 800), ctx.n(16, 40)),
-            ('decimal', ctx.n(50, 500), ctx.n(16, 40))]
-    import time as _time
     for stream, ncases, max_ops in plan:
-        t_0 = _time.time()
-        cases = [gen_case(ctx.rng, actions, max_ops, stream) for _ in range(ncases)]
-        traces, crash = run_impl(ctx, cases, workers=ctx.n(6, 8))
+        cases = inputs[stream]
+        (traces, crash), t_impl = futures[stream].result()
         t_1 = _time.time()
         if crash:
             ctx.broken('correspondence', stream, crash.get('stderr', crash))
@@ -672,34 +1034,39 @@ def run(ctx):
                          {'stream': stream, 'case': c, 'failing_op_index': n, 'impl_trace': tr[:n + 1],
                           'oracle': {'verdict': 'fail', 'clause': clause, 'detail': detail, 'text': text}})
         if stream != 'decimal':
-            lits = [(lit_case(c, actions), lit_trace(tr, actions)) for c, tr in zip(cases, traces)]
-            mism, err = ctx.coq_mism(stream, HEADER, 'trace_eqb', 'run_case', lits, shard=ctx.n(30, 100), deps=DEPS)
+            fine = stream == 'fanout'
+            header, deps = (HEADER_X, DEPS_X) if fine else (HEADER, DEPS)
+            eqb, runf, twin = ('xtrace_eqb', 'xrun_case', 'xcheck_case') if fine else ('trace_eqb', 'run_case', 'check_case')
+            if fine:
+                lits = [(lit_xcase(c, tr, actions), lit_xtrace(tr, actions)) for c, tr in zip(cases, traces)]
+            else:
+                lits = [(lit_case(c, actions), lit_trace(tr, actions)) for c, tr in zip(cases, traces)]
+            mism, err = ctx.coq_mism(stream, header, eqb, runf, lits, shard=ctx.n(30, 100), deps=deps)
             if err:
                 ctx.broken('correspondence', f'{stream} (coq evaluation)', err)
             if not proof_ok and not err:
                 # search the MODEL for a witness with the boolean twin of the theorems, then look at that case's
                 # implementation trace (already judged by the oracle above)
-                tw, terr = ctx.coq_mism(stream + '_twin', HEADER, 'Bool.eqb', 'check_case',
-                                        [(a, 'true') for a, _ in lits], shard=ctx.n(40, 100), deps=DEPS)
+                tw, terr = ctx.coq_mism(stream + '_twin', header, 'Bool.eqb', twin,
+                                        [(a, 'true') for a, _ in lits], shard=ctx.n(40, 100), deps=deps)
                 ctx.cov.setdefault('twin', {})[stream] = {'model_level_failures': len(tw), 'error': terr,
                                                           'first': cases[tw[0]] if tw else None}
-                ctx.log(f'{stream}: boolean twin check_C08 fails on {len(tw)} generated cases of the model')
+                ctx.log(f'{stream}: boolean twin fails on {len(tw)} generated cases of the model')
             if mism:
                 i = mism[0]
-                model = ctx.coq_eval(HEADER, f'run_case {lits[i][0]}')
+                model = ctx.coq_eval(header, f'{runf} {lits[i][0]}')
                 ctx.broken('correspondence', stream,
                            {'disagreements': len(mism), 'first_case': cases[i], 'impl_trace_literal': lits[i][1][:6000],
                             'model_trace': model[-6000:]})
         ctx.count(stream, len(cases), [json.dumps(t, sort_keys=True) for t in traces],
                   ops=sum(len(t) for t in traces))
-        ctx.log(f'{stream}: {len(cases)} cases, {sum(len(t) for t in traces)} ops; implementation {t_1 - t_0:.0f}s, '
+        ctx.log(f'{stream}: {len(cases)} cases, {sum(len(t) for t in traces)} ops; implementation done at {t_impl:.0f}s, '
                 f'oracle+model {_time.time() - t_1:.0f}s')
         if cases:
             ctx.sample({'stream': stream, 'case': cases[0],
                         'trace': [[e['resp'], [h['m'] for h in e['handed']]] for e in traces[0]]})
-    t_0 = _time.time()
-    e2e = [gen_e2e(ctx.rng, ctx.n(10, 20)) for _ in range(ctx.n(20, 200))]
-    traces, crash = run_impl(ctx, e2e, workers=ctx.n(6, 8))
+    (traces, crash), t_impl = futures['e2e'].result()
+    bg.shutdown()
     if crash:
         ctx.broken('correspondence', 'e2e', crash.get('stderr', crash))
     else:
@@ -714,7 +1081,7 @@ def run(ctx):
                           'oracle': {'verdict': 'fail', 'clause': clause, 'detail': detail, 'text': text}})
         ctx.count('e2e', len(e2e), [json.dumps(t, sort_keys=True) for t in traces], ops=sum(len(t) for t in traces))
         ctx.sample({'stream': 'e2e', 'case': e2e[0], 'trace': [[x.get('step'), x.get('handed')] for x in traces[0]]})
-        ctx.log(f'e2e: {len(e2e)} scenarios with real SdcConsumers in {_time.time() - t_0:.0f}s')
+        ctx.log(f'e2e: {len(e2e)} scenarios with real SdcConsumers, implementation done at {t_impl:.0f}s')
     ctx.cov['histogram'] = dict(sorted(hist.items()))
     if ctx.thorough:
         hits = ctx.gate_grep(['Eventing', 'Common'])
